@@ -102,7 +102,7 @@ Lemma step_sound s pre o s' r ev :
   step_ok pre (o, r, ev) = true /\ Inv s' (pre ++ [(o, r, ev)]).
 Proof.
   intros (Id & In_ & Ion & Indn & Ile & Ic & Io & Icur & Ih & Ind & Iu) Hb. unfold cstep. rewrite Id.
-  destruct o as [name fail|name|name|uid|uid]; try discriminate Hb; clear Hb.
+  destruct o as [name fail|name|name|uid|uid|name]; try discriminate Hb; clear Hb.
   - (* OpenDB *)
     unfold open_db, ref_incr. rewrite Indn, In_, Ion, (Io name), (Ic name).
     destruct (0 <? balance name pre) eqn:Hpos.
@@ -383,7 +383,7 @@ Section Sentences.
     intros E Hp. pose proof (trace_ok_from_split [] _ (trace_ok_all s0 ops Hs0 Hby) _ _ _ E) as H.
     cbn [app step_ok] in H. replace (0 <? balance name pre) with false in H by lia. destruct f.
     - apply andb_true_iff in H. destruct H as [H1 H2]. split; [apply cres_eqb_eq; exact H1 | apply uevents_eqb_eq; exact H2].
-    - destruct r as [u| | | | | |]; try discriminate. apply andb_true_iff in H. destruct H as [H1 H2].
+    - destruct r as [u| | | | | | |]; try discriminate. apply andb_true_iff in H. destruct H as [H1 H2].
       exists u. repeat split; [apply uevents_eqb_eq; exact H2 | apply negb_true_iff; exact H1].
   Qed.
 
@@ -432,7 +432,7 @@ Proof.
   - cbn [app droppable_rev]. rewrite N.eqb_refl. reflexivity.
   - cbn [forallb no_open_of] in H. apply andb_true_iff in H. destruct H as [H2 H1].
     cbn [app droppable_rev].
-    destruct o as [n f|n|n|u|u]; try exact (IH H1).
+    destruct o as [n f|n|n|u|u|n]; try exact (IH H1).
     + apply negb_true_iff in H2. rewrite H2. destruct r; exact (IH H1).
     + destruct r; try exact (IH H1). destruct (n =? name); [reflexivity | exact (IH H1)].
 Qed.
@@ -464,7 +464,7 @@ Lemma alive_step s o s' r ev :
   alive s -> cstep s o = (s', r, ev) -> alive s' /\ r <> RPanic /\ r <> RDead.
 Proof.
   intros (Hd & Hn & Ho & Hnd). unfold cstep. rewrite Hd. unfold alive.
-  destruct o as [name f|name|name|uid|uid].
+  destruct o as [name f|name|name|uid|uid|name].
   - unfold open_db, ref_incr. rewrite Hnd, Hn, Ho. destruct (alookup name (opened s)); [|destruct f]; intros [= <- <- <-]; repeat split; auto; discriminate.
   - destruct (newest_handle name (handles s)); [|intros [= <- <- <-]; repeat split; auto; discriminate].
     unfold close_h. destruct (count_of name s =? 0); [|destruct (count_of name s =? 1)]; intros [= <- <- <-]; repeat split; auto; discriminate.
@@ -474,6 +474,8 @@ Proof.
     unfold close_h. destruct (count_of n s =? 0); [|destruct (count_of n s =? 1)]; intros [= <- <- <-]; repeat split; auto; discriminate.
   - destruct (alookup uid (handles s)); [|intros [= <- <- <-]; repeat split; auto; discriminate].
     unfold drop_h. intros [= <- <- <-]; repeat split; auto; discriminate.
+  - destruct (newest_handle name (handles s)); [|intros [= <- <- <-]; repeat split; auto; discriminate].
+    unfold close_h. destruct (count_of name s =? 0); [|destruct (count_of name s =? 1)]; intros [= <- <- <-]; repeat split; auto; discriminate.
 Qed.
 
 Theorem never_panics ops : forall s s' tr,
@@ -531,3 +533,16 @@ Lemma overlapping_first_opens s0 :
   conc_ok [([KOpen 0 r1; KOpen 0 r2], ev)] = false /\
   snd (crun s [CClose 0; CClose 0]) = [(CClose 0, ROk, []); (CClose 0, ROk, [UClose 0])].
 Proof. intros [-> | ->]; vm_compute; repeat split; reflexivity. Qed.
+
+(* a failing underlying Close: the wrapper's state changes exactly as for a successful close (the
+   entry is released before the underlying call), the underlying call is the same, only the result
+   differs (the underlying error instead of ok) *)
+Lemma close_error_like_close s name :
+  cstep s (CCloseE name) =
+  (let '(s', r, ev) := cstep s (CClose name) in
+   (s', match ev with [] => r | _ => if dead s then r else RCloseErr end, ev)).
+Proof.
+  unfold cstep. destruct (dead s); [reflexivity|].
+  destruct (newest_handle name (handles s)); [|reflexivity].
+  destruct (close_h n name s) as [[s' r] ev]. destruct ev; reflexivity.
+Qed.
